@@ -27,6 +27,7 @@
 # SOFTWARE, EVEN IF ADVISED OF THE POSSIBILITY OF SUCH DAMAGE.
 
 import sys
+from contextvars import ContextVar
 
 from twisted.internet import reactor
 from twisted.internet.defer import DeferredLock, inlineCallbacks
@@ -42,6 +43,14 @@ from simulaqron.toolbox.manage_nodes import NetworksConfigConstructor
 
 class IncompleteMessageError(ValueError):
     pass
+
+
+# The connection on which the message that is being handled arrived. All
+# connections of a node share one message handler, so the handler looks here to
+# find out where its replies belong. twisted runs every step of an
+# inlineCallbacks generator in the context it was started in, so the value is
+# still right when a suspended handler resumes after other connections were served.
+current_protocol = ContextVar("current_protocol", default=None)
 
 
 class NetQASMProtocol(Protocol):
@@ -106,7 +115,11 @@ class NetQASMProtocol(Protocol):
             except IncompleteMessageError:
                 return
 
-            d = self.messageHandler.handle_netqasm_message(msg_id=msg_id, msg=msg)
+            token = current_protocol.set(self)
+            try:
+                d = self.messageHandler.handle_netqasm_message(msg_id=msg_id, msg=msg)
+            finally:
+                current_protocol.reset(token)
             d.addCallback(self.log_handled_message)
             d.addErrback(self.log_error)
 
